@@ -126,6 +126,17 @@ const MAX_BACKUP_MEMBER_NAME_BYTES: u32 = 1024;
 const MAX_BACKUP_MEMBER_SIZE_BYTES: u64 = 1 << 40; // 1 TiB per member
 const BACKUP_STREAM_CHUNK_BYTES: usize = 64 * 1024;
 const BACKUP_CONSISTENCY_MAX_ATTEMPTS: usize = 3;
+/// Last member of archives written by this version: its 4-byte payload is the CRC32 of the member
+/// count and of every preceding member header (name length, name, data length). Member payloads
+/// are covered by the metadata checksum; this covers the headers. Older archives do not have it
+/// and are verified as before.
+const BACKUP_HEADER_GUARD_MEMBER: &str = ".kyrodb_header_guard";
+
+fn hash_member_header(hasher: &mut crc32fast::Hasher, name: &str, data_len: u64) {
+    hasher.update(&(name.len() as u32).to_le_bytes());
+    hasher.update(name.as_bytes());
+    hasher.update(&data_len.to_le_bytes());
+}
 
 /// Shared utility function to list backups from a directory
 /// This eliminates code duplication between BackupManager and RestoreManager
@@ -205,6 +216,11 @@ fn validate_backup_member_name(name: &str) -> Result<()> {
         components.next().is_none() && matches!(first, Component::Normal(_)),
         "invalid backup member path '{}': only single-file names are allowed",
         name
+    );
+    anyhow::ensure!(
+        !name.chars().any(|c| c.is_control() || c == '/' || c == '\\'),
+        "invalid backup member path '{}': control characters and separators are not allowed",
+        name.escape_default()
     );
 
     Ok(())
@@ -510,7 +526,7 @@ fn read_snapshot_doc_count(path: &Path) -> Result<u64> {
 fn write_backup_archive(backup_path: &Path, entries: &[ArchiveEntry]) -> Result<u32> {
     let backup_file = File::create(backup_path).context("Failed to create backup file")?;
     let mut writer = BufWriter::new(backup_file);
-    let entry_count = entries.len();
+    let entry_count = entries.len() + 1; // + header guard
     anyhow::ensure!(
         entry_count <= MAX_BACKUP_ARCHIVE_FILES as usize,
         "backup archive contains too many members: {} (max {})",
@@ -523,6 +539,8 @@ fn write_backup_archive(backup_path: &Path, entries: &[ArchiveEntry]) -> Result<
         entry_count
     );
     writer.write_all(&(entry_count as u32).to_le_bytes())?;
+    let mut header_hasher = crc32fast::Hasher::new();
+    header_hasher.update(&(entry_count as u32).to_le_bytes());
 
     let mut checksum = 0u32;
     for entry in entries {
@@ -534,9 +552,18 @@ fn write_backup_archive(backup_path: &Path, entries: &[ArchiveEntry]) -> Result<
         writer.write_all(name_bytes)?;
         writer.write_all(&(payload.len() as u64).to_le_bytes())?;
         writer.write_all(&payload)?;
+        hash_member_header(&mut header_hasher, &entry.name, payload.len() as u64);
 
         checksum = checksum.wrapping_add(crc32fast::hash(&payload));
     }
+
+    let guard_payload = header_hasher.finalize().to_le_bytes();
+    let guard_name = BACKUP_HEADER_GUARD_MEMBER.as_bytes();
+    writer.write_all(&(guard_name.len() as u32).to_le_bytes())?;
+    writer.write_all(guard_name)?;
+    writer.write_all(&(guard_payload.len() as u64).to_le_bytes())?;
+    writer.write_all(&guard_payload)?;
+    checksum = checksum.wrapping_add(crc32fast::hash(&guard_payload));
 
     writer.flush()?;
     writer
@@ -552,6 +579,12 @@ fn write_backup_archive(backup_path: &Path, entries: &[ArchiveEntry]) -> Result<
 /// Backup format: [file_count][name_len][name][data_len][data]...
 /// Checksum is computed only from file data, not metadata
 pub fn compute_backup_checksum(backup_path: &Path) -> Result<u32> {
+    Ok(compute_backup_checksums(backup_path)?.0)
+}
+
+/// Payload checksum plus, for archives that end in a header guard member, the pair
+/// (guard value stored in the archive, CRC32 recomputed over the member headers).
+fn compute_backup_checksums(backup_path: &Path) -> Result<(u32, Option<(u32, u32)>)> {
     let file =
         File::open(backup_path).context("Failed to open backup file for checksum computation")?;
     let mut reader = BufReader::new(file);
@@ -559,14 +592,32 @@ pub fn compute_backup_checksum(backup_path: &Path) -> Result<u32> {
     let file_count = read_archive_file_count(&mut reader)?;
 
     let mut checksum = 0u32;
+    let mut header_hasher = crc32fast::Hasher::new();
+    header_hasher.update(&file_count.to_le_bytes());
+    let mut guard = None;
 
     // Process each file in the backup
-    for _ in 0..file_count {
-        let (_name, data_len) = read_archive_member_header(&mut reader)?;
+    for index in 0..file_count {
+        let (name, data_len) = read_archive_member_header(&mut reader)?;
+        if index + 1 == file_count && name == BACKUP_HEADER_GUARD_MEMBER {
+            anyhow::ensure!(
+                data_len == 4,
+                "backup header guard has unexpected size {}",
+                data_len
+            );
+            let mut stored = [0u8; 4];
+            reader
+                .read_exact(&mut stored)
+                .context("Failed to read backup header guard")?;
+            guard = Some((u32::from_le_bytes(stored), header_hasher.clone().finalize()));
+            checksum = checksum.wrapping_add(crc32fast::hash(&stored));
+            continue;
+        }
+        hash_member_header(&mut header_hasher, &name, data_len);
         checksum = checksum.wrapping_add(stream_member_crc32(&mut reader, data_len)?);
     }
 
-    Ok(checksum)
+    Ok((checksum, guard))
 }
 
 /// Manages backup creation and listing
@@ -1390,7 +1441,7 @@ impl RestoreManager {
             return Err(anyhow!("Backup file not found: {}", metadata.id));
         }
 
-        let computed_checksum = compute_backup_checksum(&backup_path).with_context(|| {
+        let (computed_checksum, header_guard) = compute_backup_checksums(&backup_path).with_context(|| {
             format!(
                 "failed to validate backup archive structure for {}",
                 metadata.id
@@ -1403,6 +1454,16 @@ impl RestoreManager {
             metadata.checksum,
             computed_checksum
         );
+        if let Some((stored, computed)) = header_guard {
+            anyhow::ensure!(
+                stored == computed,
+                "backup checksum mismatch for {}: archive member names or lengths were altered \
+                 (header guard 0x{:08X}, computed 0x{:08X})",
+                metadata.id,
+                stored,
+                computed
+            );
+        }
 
         Ok(backup_path)
     }
@@ -1421,6 +1482,11 @@ impl RestoreManager {
         // Extract each file
         for _ in 0..file_count {
             let (name, data_len) = read_archive_member_header(&mut reader)?;
+            if name == BACKUP_HEADER_GUARD_MEMBER {
+                let mut sink = std::io::sink();
+                stream_member_to_writer(&mut reader, &mut sink, data_len)?;
+                continue;
+            }
 
             // Write to data directory
             let output_path = self.data_dir.join(&name);
